@@ -124,7 +124,11 @@ theorem tryAdd_measure {k : Cfg} {L : List Nat} {s : St} {p : Nat} {el : Int} (h
   unfold tryAdd
   split
   · split
-    · obtain ⟨a, b, c⟩ := one_thread (s' := register s p el) (x := ⟨.sel, el, false, (s.ps p).canc⟩) hc hni rfl h5
+    · split
+      · obtain ⟨a, b, c⟩ := one_thread (s' := refuse s p .stopped) (x := ⟨.done .stopped, (s.ps p).el, false, (s.ps p).canc⟩) hc hni rfl h5
+          (b := 0) (by simp [phi]) h3 (d := 0) (by simp [omg])
+        exact ⟨a, by simp only [Phi, refuse] at b ⊢; omega, by simp only [Omega, refuse] at c ⊢; omega⟩
+      obtain ⟨a, b, c⟩ := one_thread (s' := register s p el) (x := ⟨.sel, el, false, (s.ps p).canc⟩) hc hni rfl h5
         (b := 4) (by simp [phi]) h3 (d := 3) (by simp [omg])
       exact ⟨a, by simp only [Phi, register] at b ⊢; omega, by simp only [Omega, register] at c ⊢; omega⟩
     · obtain ⟨a, b, c⟩ := one_thread (s' := refuse s p .full) (x := ⟨.done .full, (s.ps p).el, false, (s.ps p).canc⟩) hc hni rfl h5
@@ -265,7 +269,9 @@ namespace OtelVerif.C02
 theorem tryAdd_ps_other (k : Cfg) (s : St) (p q : Nat) (el : Int) (h : q ≠ p) : (tryAdd k s p el).ps q = s.ps q := by
   unfold tryAdd register refuse accept
   split
-  · split <;> simp [upd_other _ _ _ _ h]
+  · split
+    · split <;> simp [upd_other _ _ _ _ h]
+    · simp [upd_other _ _ _ _ h]
   · split <;> simp [upd_other _ _ _ _ h]
 
 /-- a thread that has not called Offer stays idle under every label except its own `offer` -/
@@ -365,10 +371,10 @@ theorem idle_step {k : Cfg} {s s' : St} {l : Label} (hf : fire k s l = some s') 
       unfold finish
       simp only []
       split
-      · simp only []; rw [condSignal_ph]; exact hq
-      · rw [condSignal_ph]; exact hq
+      · simp only []; rw [condBroadcast_ph]; exact hq
+      · rw [condBroadcast_ph]; exact hq
     · cases hf
-  | shutdown => simp only [fire] at hf; cases hf; exact hq
+  | shutdown => simp only [fire] at hf; cases hf; rw [condBroadcast_ph]; exact hq
 
 /-- in every reachable state only finitely many threads have called Offer -/
 theorem covers_exists {k : Cfg} {s : St} (hr : Reachable k s) : ∃ L, Covers L s := by
@@ -485,13 +491,13 @@ theorem finish_measure {k : Cfg} {L : List Nat} {s : St} {id : Nat} {el : Int} {
     (hl : s.inflight.lookup id = some el) : Covers L (finish k s id el e) ∧ Omega L (finish k s id el e) < Omega L s := by
   have hlen := filter_lookup_length _ _ _ hl
   have key : ∀ s0 : St, s0.ps = s.ps → s0.items = s.items → s0.inflight = s.inflight.filter (fun x => x.1 != id) →
-      Covers L (condSignal s0) ∧ Omega L (condSignal s0) < Omega L s := by
+      Covers L (condBroadcast s0) ∧ Omega L (condBroadcast s0) < Omega L s := by
     intro s0 e1 e2 e3
-    obtain ⟨f1, f2, _⟩ := condSignal_fields s0
+    obtain ⟨f1, f2, _⟩ := condBroadcast_fields s0
     refine ⟨⟨hc.1, ?_⟩, ?_⟩
-    · intro q hq; rw [condSignal_ph, e1] at hq; exact hc.2 q hq
-    · have : sumF omg (condSignal s0).ps L = sumF omg s.ps L :=
-        sumF_congr omg _ _ L (fun p => by unfold omg; rw [condSignal_ph, e1])
+    · intro q hq; rw [condBroadcast_ph, e1] at hq; exact hc.2 q hq
+    · have : sumF omg (condBroadcast s0).ps L = sumF omg s.ps L :=
+        sumF_congr omg _ _ L (fun p => by unfold omg; rw [condBroadcast_ph, e1])
       simp only [Omega, this, f1, f2, e2, e3]
       omega
   unfold finish
@@ -515,7 +521,9 @@ theorem tryAdd_accepted_mono (k : Cfg) (s : St) (p : Nat) (el : Int) : ∀ q ∈
   intro q hq
   unfold tryAdd register refuse accept
   split
-  · split <;> exact hq
+  · split
+    · split <;> exact hq
+    · exact hq
   · split
     · exact hq
     · simp [hq]
@@ -525,14 +533,18 @@ theorem tryAdd_canc (k : Cfg) (s : St) (p q : Nat) (el : Int) : ((tryAdd k s p e
   · subst h
     unfold tryAdd register refuse accept
     split
-    · split <;> simp
+    · split
+      · split <;> simp
+      · simp
     · split <;> simp
   · rw [tryAdd_ps_other _ _ _ _ _ h]
 
 theorem tryAdd_stopped (k : Cfg) (s : St) (p : Nat) (el : Int) : (tryAdd k s p el).stopped = s.stopped := by
   unfold tryAdd register refuse accept
   split
-  · split <;> rfl
+  · split
+    · split <;> rfl
+    · rfl
   · split <;> rfl
 
 /-- only `Shutdown` changes `stopped` -/
@@ -596,8 +608,8 @@ theorem stopped_step {k : Cfg} {s s' : St} {l : Label} (hf : fire k s l = some s
       unfold finish
       simp only []
       split
-      · exact (condSignal_fields _).2.2.2.1
-      · exact (condSignal_fields _).2.2.2.1
+      · rfl
+      · rfl
     · cases hf
 
 /-- frame: a label changes phase and cancellation flag only of its own thread; `accepted` only grows -/
@@ -694,10 +706,12 @@ theorem frame_step {k : Cfg} {s s' : St} {l : Label} (hf : fire k s l = some s')
       unfold finish
       simp only []
       split
-      · exact ⟨fun q hq => by simpa [condSignal_accepted] using hq, fun r _ => ⟨by simp [condSignal_ph], by simp [condSignal_canc]⟩⟩
-      · exact ⟨fun q hq => by simpa [condSignal_accepted] using hq, fun r _ => ⟨by simp [condSignal_ph], by simp [condSignal_canc]⟩⟩
+      · exact ⟨fun q hq => hq, fun r _ => ⟨condBroadcast_ph _ r, condBroadcast_canc _ r⟩⟩
+      · exact ⟨fun q hq => hq, fun r _ => ⟨condBroadcast_ph _ r, condBroadcast_canc _ r⟩⟩
     · cases hf
-  | shutdown => simp only [fire] at hf; cases hf; exact ⟨fun q hq => hq, fun r _ => ⟨rfl, rfl⟩⟩
+  | shutdown =>
+    simp only [fire] at hf; cases hf
+    exact ⟨fun q hq => hq, fun r _ => ⟨condBroadcast_ph _ r, condBroadcast_canc _ r⟩⟩
 
 /-- labels of a drain: the goroutines' own steps plus consumers reading and completing; no new Offer, no
 cancellation, no shutdown -/
@@ -751,10 +765,10 @@ theorem tracked_step {k : Cfg} {s s' : St} {l : Label} {p : Nat} (hC : InvC k s)
     · rename_i h; cases hf
       have hb := (hC.elOk q (Or.inr (Or.inl h))).2.2
       unfold tryAdd
+      simp only [hrun, Bool.false_eq_true, if_false]
       split
       · exact Or.inl ⟨by simp [register], by simpa [register] using hcn, hrun⟩
-      · simp only [hrun, Bool.false_eq_true, if_false]
-        exact Or.inr (by simp [accept])
+      · exact Or.inr (by simp [accept])
     · cases hf
   | relockCtx q =>
     simp only [Label.tid, Option.some.injEq] at htid; subst htid
